@@ -1149,7 +1149,7 @@ Error query_rw_info(Arch arch, const BaseInst& inst, const Operand_* operands, s
     }
 
     rm_ops_mask &= uint32_t(inst_rm_info.rm_ops_mask);
-    if (rm_ops_mask && !inst.has_option(InstOptions::kX86_ER)) {
+    if (rm_ops_mask && !inst.has_option(InstOptions::kX86_ER | InstOptions::kX86_SAE)) {
       // An immediate that is not a sign-extended 32-bit value can only be combined with a 64-bit register (the
       // zero-extending `and r64, imm32` form) - there is no `m64, imm` form that could hold it.
       bool imm_fits_mem64 = !(op_count >= 2 && operands[op_count - 1].is_imm()) ||
@@ -1600,12 +1600,15 @@ Error query_rw_info(Arch arch, const BaseInst& inst, const Operand_* operands, s
           out->_operands[0].reset(W, size0);
           out->_operands[1].reset(R, size1);
 
-          if (inst_rm_info.rm_ops_mask & 0x1) {
+          // {er} and {sae} are only encodable with register operands.
+          bool can_use_mem = !inst.has_option(InstOptions::kX86_ER | InstOptions::kX86_SAE);
+
+          if ((inst_rm_info.rm_ops_mask & 0x1) && can_use_mem) {
             out->_operands[0].add_op_flags(RegM);
             out->_operands[0].set_rm_size(size0);
           }
 
-          if (inst_rm_info.rm_ops_mask & 0x2) {
+          if ((inst_rm_info.rm_ops_mask & 0x2) && can_use_mem) {
             out->_operands[1].add_op_flags(RegM);
             out->_operands[1].set_rm_size(size1);
           }
@@ -1690,12 +1693,15 @@ Error query_rw_info(Arch arch, const BaseInst& inst, const Operand_* operands, s
         }
 
         if (operands[0].is_reg() && operands[1].is_reg()) {
-          if (inst_rm_info.rm_ops_mask & 0x1) {
+          // {er} and {sae} are only encodable with register operands.
+          bool can_use_mem = !inst.has_option(InstOptions::kX86_ER | InstOptions::kX86_SAE);
+
+          if ((inst_rm_info.rm_ops_mask & 0x1) && can_use_mem) {
             out->_operands[0].add_op_flags(RegM);
             out->_operands[0].set_rm_size(size0);
           }
 
-          if (inst_rm_info.rm_ops_mask & 0x2) {
+          if ((inst_rm_info.rm_ops_mask & 0x2) && can_use_mem) {
             out->_operands[1].add_op_flags(RegM);
             out->_operands[1].set_rm_size(size1);
           }
